@@ -42,14 +42,38 @@ def obsToString (o : Obs) : String :=
   let t := match s.timeout with | some v => toString v | none => "~"
   s!"mh={s.maxHeaders},mr={s.maxRedirections},fr={b01 s.followRedirects},ct={s.connectTimeout},rt={s.readTimeout},to={t},ac={b01 s.acceptInvalidCerts},ah={b01 s.acceptInvalidHostnames},co={b01 s.allowCompression},px={s.proxy},cs={s.defaultCharset},rc={s.rootCerts};sh={canonHeaders o.sessHeaders};rh={canonHeaders o.reqHeaders}"
 
-/-- `sess <op;op;…>` → one `[…]` group per observation op, in order -/
+/-- a token of the op line: a machine operation, or `pb:<i>:<ua>` = `try_prepare()` on builder `i`
+    (observes it, then the builder is gone) -/
+inductive Tok where
+  | op (o : SOp)
+  | prep (b : Nat) (ua : Bytes)
+
+def tokOfString (s : String) : Option Tok :=
+  match s.splitOn ":" with
+  | ["pb", i, ua] => match i.toNat?, bytesOfHex ua with
+    | some i, some ua => some (.prep i ua) | _, _ => none
+  | _ => (sopOfString s).map Tok.op
+
+/-- the prepared header map of a body-less request, from what `obsBuilder` shows -/
+def preparedOf (o : Obs) (ua : Bytes) : Headers :=
+  tryPrepare { allowCompression := o.sc.allowCompression, userAgent := ua } o.reqHeaders { kind := .empty }
+
+def runToks : Heap → List Tok → List String
+  | _, [] => []
+  | h, .op o :: r => let p := h.step o; (p.2.map obsToString).toList ++ runToks p.1 r
+  | h, .prep b ua :: r =>
+    let p := h.step (.obsBuilder b)
+    let out := match p.2 with
+      | some o => [obsToString o ++ ";prep=" ++ canonHeaders (preparedOf o ua)]
+      | none => []
+    out ++ runToks (p.1.step (.dropBuilder b)).1 r
+
+/-- `sess <op;op;…>` → one group per observation op, in order -/
 def opSess (args : List String) : String :=
   match args with
   | [ops] =>
-    match (ops.splitOn ";").mapM sopOfString with
-    | some ops =>
-      let obs := (Heap.run {} ops).filterMap id
-      "obs=" ++ "|".intercalate (obs.map obsToString)
+    match (ops.splitOn ";").mapM tokOfString with
+    | some toks => "obs=" ++ "|".intercalate (runToks {} toks)
     | none => "bad-op"
   | _ => "bad-op"
 
